@@ -116,6 +116,7 @@ struct World
   std::vector<long> invoked; // callback invocation log of the current call
   std::vector<unsigned> args_seen; // the argument each invoked callback received
   long dying = 0;            // cid of the connection being destroyed (for the unregister callback)
+  bool unwinding_next = false; // the next destroy_conn lets the connection die during stack unwinding
   // a violation noticed inside an unregister callback: the callback runs inside a destructor that
   // turns every exception into std::terminate, so it is recorded here and raised after the operation
   std::string pending_cls, pending_detail;
@@ -478,7 +479,26 @@ void World::destroy_conn(unsigned ci, std::string const &n)
   long const cid = c.cid;
   dying = cid;
   int const s = c.sig;
-  nothrow(n, [&] { c.handle.reset(); });
+  if (unwinding_next)
+  {
+    // the connection dies as a local of a scope that is left by an exception (ordinary RAII
+    // cleanup during stack unwinding): it dies all the same
+    unwinding_next = false;
+    ctx.probe("connection_destroyed_during_unwinding");
+    nothrow(n, [&] {
+      try
+      {
+        std::optional<fcppt::signal::auto_connection> local(std::move(c.handle));
+        c.handle.reset();
+        throw sim::Fault{"an exception unwinding the scope that owns the connection"};
+      }
+      catch (sim::Fault const &)
+      {
+      }
+    });
+  }
+  else
+    nothrow(n, [&] { c.handle.reset(); });
   dying = 0;
   raise_pending();
   if (c.with_unreg)
@@ -1040,6 +1060,7 @@ void World::run_op(sim::Op const &op)
     long const cid = conns[c]->cid;
     if (conns[c]->sig < 0)
       ctx.probe("orphaned_connection_destroyed");
+    unwinding_next = op.get("unw") != 0;
     destroy_conn(static_cast<unsigned>(c), n);
     ctx.ev("disconnect " + std::to_string(cid));
     return;
@@ -1271,7 +1292,11 @@ void generate(sim::Rng &rng, sim::Plan &p, bool)
     if (n == "connect")
       op.set("last_destroys", rng.chance(1, 5) ? 1 : 0);
     if (n == "disconnect")
+    {
       op.set("c", static_cast<long>(rng.below(16)));
+      if (rng.chance(1, 3))
+        op.set("unw", 1);
+    }
     if (n == "call")
     {
       op.set("arg", static_cast<long>(rng.below(100))).set("init", static_cast<long>(rng.below(1000)));
